@@ -245,3 +245,212 @@ pub fn definition(s: &Sig) -> SimpleFunctionDefinition {
 pub fn engine_type(t: &MType) -> Type {
     t.to_engine()
 }
+
+// ---------------------------------------------------------------------------
+// A hand-written definition with a per-call context object.
+
+use wirefilter::{
+    CompiledFunction, FunctionDefinition, FunctionDefinitionContext, FunctionParam, FunctionParamError,
+    GetType, ParserSettings, RhsValue,
+};
+
+#[derive(Clone, Debug, PartialEq, Eq)]
+pub enum Seen {
+    Var(MType),
+    ConstInt(i64),
+    ConstOther,
+}
+
+#[derive(Clone, Debug, Default)]
+pub struct CtxState {
+    pub seen: Vec<Seen>,
+    pub touched_by: Vec<&'static str>,
+}
+
+thread_local! {
+    pub static CTX_ERRORS: RefCell<Vec<String>> = const { RefCell::new(Vec::new()) };
+    pub static CTX_ACCESSORS: RefCell<Vec<&'static str>> = const { RefCell::new(Vec::new()) };
+}
+
+pub fn ctx_errors_take() -> Vec<String> {
+    CTX_ERRORS.with(|e| std::mem::take(&mut *e.borrow_mut()))
+}
+
+pub fn ctx_accessors_take() -> Vec<&'static str> {
+    CTX_ACCESSORS.with(|e| std::mem::take(&mut *e.borrow_mut()))
+}
+
+fn ctx_err(s: String) {
+    CTX_ERRORS.with(|e| e.borrow_mut().push(s));
+}
+
+fn used(a: &'static str) {
+    CTX_ACCESSORS.with(|e| e.borrow_mut().push(a));
+}
+
+fn describe(p: &FunctionParam<'_>) -> Seen {
+    match p {
+        FunctionParam::Variable(t) => Seen::Var(MType::from_engine(*t)),
+        FunctionParam::Constant(RhsValue::Int(i)) => Seen::ConstInt(*i),
+        FunctionParam::Constant(_) => Seen::ConstOther,
+    }
+}
+
+#[derive(Debug)]
+pub struct CtxFn;
+
+pub fn ctxfn_value(first_len: usize, nargs: usize, consts: &[i64]) -> i64 {
+    let sum: i64 = consts.iter().fold(0i64, |a, b| a.wrapping_add(*b));
+    first_len as i64 + 1000 * nargs as i64 + 7 * sum.rem_euclid(100)
+}
+
+impl FunctionDefinition for CtxFn {
+    fn context(&self) -> Option<FunctionDefinitionContext> {
+        Some(FunctionDefinitionContext::new(CtxState::default()))
+    }
+
+    fn check_param(
+        &self,
+        _: &ParserSettings,
+        params: &mut dyn ExactSizeIterator<Item = FunctionParam<'_>>,
+        next_param: &FunctionParam<'_>,
+        ctx: Option<&mut FunctionDefinitionContext>,
+    ) -> Result<(), FunctionParamError> {
+        let index = params.len();
+        let before: Vec<Seen> = params.map(|p| describe(&p)).collect();
+        if index == 0 {
+            next_param.as_variable().map_err(FunctionParamError::KindMismatch)?;
+            next_param.expect_val_type(std::iter::once(wirefilter::ExpectedType::Type(wirefilter::Type::Bytes)))?;
+        } else {
+            next_param.as_constant().map_err(FunctionParamError::KindMismatch)?;
+            next_param.expect_val_type(std::iter::once(wirefilter::ExpectedType::Type(wirefilter::Type::Int)))?;
+        }
+        let Some(ctx) = ctx else {
+            ctx_err("check_param received no context object".into());
+            return Ok(());
+        };
+        // rotate through the mutable accessors
+        let state: Option<&mut CtxState> = if index % 2 == 0 {
+            used("downcast_mut");
+            ctx.downcast_mut::<CtxState>()
+        } else {
+            used("as_any_mut");
+            ctx.as_any_mut().downcast_mut::<CtxState>()
+        };
+        match state {
+            None => ctx_err(format!(
+                "accessor {} could not reach the context object in check_param #{index}",
+                if index % 2 == 0 { "downcast_mut" } else { "as_any_mut" }
+            )),
+            Some(st) => {
+                if st.seen != before {
+                    ctx_err(format!("check_param #{index}: context remembers {:?}, earlier parameters are {:?}", st.seen, before));
+                }
+                st.seen.push(describe(next_param));
+            }
+        }
+        Ok(())
+    }
+
+    fn return_type(
+        &self,
+        params: &mut dyn ExactSizeIterator<Item = FunctionParam<'_>>,
+        ctx: Option<&FunctionDefinitionContext>,
+    ) -> Type {
+        let actual: Vec<Seen> = params.map(|p| describe(&p)).collect();
+        match ctx {
+            None => ctx_err("return_type received no context object".into()),
+            Some(c) => {
+                used("as_any_ref");
+                used("downcast_ref");
+                let a = c.as_any_ref().downcast_ref::<CtxState>().map(|s| s.seen.clone());
+                let b = c.downcast_ref::<CtxState>().map(|s| s.seen.clone());
+                if a.is_none() || b.is_none() {
+                    ctx_err("as_any_ref / downcast_ref could not reach the context object in return_type".into());
+                } else if a != b {
+                    ctx_err("as_any_ref and downcast_ref disagree".into());
+                } else if a.as_ref() != Some(&actual) {
+                    // the mutable accessor may have failed earlier; only report when it claims to have worked
+                    ctx_err(format!("return_type: context remembers {:?}, the call's parameters are {:?}", a, actual));
+                }
+            }
+        }
+        Type::Int
+    }
+
+    fn arg_count(&self) -> (usize, Option<usize>) {
+        (1, Some(2))
+    }
+
+    fn compile(
+        &self,
+        params: &mut dyn ExactSizeIterator<Item = FunctionParam<'_>>,
+        ctx: Option<FunctionDefinitionContext>,
+    ) -> CompiledFunction {
+        let actual: Vec<Seen> = params.map(|p| describe(&p)).collect();
+        let state: Option<CtxState> = match ctx {
+            None => {
+                ctx_err("compile received no context object".into());
+                None
+            }
+            Some(c) => {
+                let cl = c.clone();
+                used("clone");
+                let via_clone = cl.downcast_ref::<CtxState>().cloned();
+                let via_into_any = if actual.len() % 2 == 0 {
+                    used("into_any");
+                    c.into_any().downcast::<CtxState>().ok().map(|b| *b)
+                } else {
+                    used("downcast");
+                    c.downcast::<CtxState>().ok().map(|b| *b)
+                };
+                if via_clone.as_ref().map(|s| &s.seen) != via_into_any.as_ref().map(|s| &s.seen) {
+                    ctx_err("clone and into_any/downcast disagree".into());
+                }
+                via_into_any
+            }
+        };
+        let (n_seen, consts): (usize, Vec<i64>) = match &state {
+            Some(s) => {
+                if s.seen != actual {
+                    ctx_err(format!("compile: context remembers {:?}, the call's parameters are {:?}", s.seen, actual));
+                }
+                (s.seen.len(), s.seen.iter().filter_map(|x| if let Seen::ConstInt(i) = x { Some(*i) } else { None }).collect())
+            }
+            None => (usize::MAX / 2000, vec![]),
+        };
+        Box::new(move |args| {
+            let mut v: Vec<ArgV> = Vec::new();
+            for a in args {
+                v.push(match a {
+                    Ok(x) => Ok(MVal::from_lhs(&x)),
+                    Err(t) => Err(MType::from_engine(t)),
+                });
+            }
+            CALL_LOG.with(|l| {
+                if let Some(log) = l.borrow_mut().as_mut() {
+                    log.push(CallRec { name: "ctxfn".to_string(), args: v.clone() });
+                }
+            });
+            match v.first() {
+                Some(Ok(MVal::Bytes(b))) => Some(LhsValue::Int(ctxfn_value(b.len(), n_seen, &consts))),
+                _ => None,
+            }
+        })
+    }
+}
+
+/// model semantics of ctxfn on evaluated arguments
+pub fn apply_ctxfn(a: &[ArgV]) -> Option<MVal> {
+    let consts: Vec<i64> = a[1..].iter().filter_map(|x| if let Ok(MVal::Int(i)) = x { Some(*i) } else { None }).collect();
+    match &a[0] {
+        Ok(MVal::Bytes(b)) => Some(MVal::Int(ctxfn_value(b.len(), a.len(), &consts))),
+        _ => None,
+    }
+}
+
+#[allow(unused)]
+fn _assert_traits() {
+    fn is_get_type<T: GetType>() {}
+    is_get_type::<Type>();
+}
